@@ -276,6 +276,7 @@ func c20Opts(spec string, hits *[]string) []larking.ServerOption {
 	}
 	for i, o := range strings.Split(spec, "+") {
 		switch {
+		case o == "L": // not an option: the services are registered after NewServer (always written last)
 		case o == "t":
 			opts = append(opts, larking.TLSCredsOption(nil))
 		case o == "T": // a TLS configuration: how the listener is wrapped, not what the handler serves
@@ -325,10 +326,29 @@ func c20Run(o *out, input string) {
 	var hits []string
 	opts := c20Opts(spec, &hits)
 	m := e.mux
+	late := strings.HasSuffix(spec, "L")
+	if late {
+		// a mux that has nothing yet when the server is built: routes published afterwards are served under every mount
+		var err error
+		if m, err = larking.NewMux(); err != nil {
+			panic(err)
+		}
+	}
 	if nilmux {
 		m = nil
 	}
 	hs, err, panicked := c20NewServer(m, opts)
+	if late && m != nil && err == nil && !panicked {
+		if err := m.VerifRegisterService(&testpb.Messaging_ServiceDesc, e.svc); err != nil {
+			panic(err)
+		}
+		if err := m.VerifRegisterService(&testpb.ChatRoom_ServiceDesc, &c20Chat{svc: e.svc}); err != nil {
+			panic(err)
+		}
+		old := e.mux
+		e.mux = m
+		defer func() { e.mux = old }()
+	}
 	if panicked {
 		o.count("observed/NewServer-panic")
 		o.emit(input, "panic")
@@ -489,7 +509,7 @@ func c20Gen(o *out, r *rng, tier string) {
 		{c20H("/api"), c20M("/api", "/twirp")},
 		{c20H("/"), c20M("/api", "/twirp")},
 		{"t", c20H("/healthz"), "m", c20M("/pfx", "/api")},
-		{"T", c20H("/healthz"), "m", c20M("/pfx", "/api")}, {"T", c20M("/api/", "/twirp"), c20H("/metrics")}, {c20M("/api/"), "T"}, {"T"},
+		{"T", c20H("/healthz"), "m", c20M("/pfx", "/api")}, {"T", c20M("/api/", "/twirp"), c20H("/metrics")}, {c20M("/api/"), "T"}, {"T"}, {c20M("/api/", "/twirp"), "L"}, {c20M("/", "/api"), c20H("/metrics"), "L"}, {"L"},
 	}
 	mountsOf := func(cfg []string) []string {
 		var ms []string
@@ -610,6 +630,9 @@ func c20Gen(o *out, r *rng, tier string) {
 		}
 		if r.intn(5) == 0 {
 			cfg = append([]string{"T"}, cfg...) // the same mounts and handlers on a server that will listen with TLS
+		}
+		if r.intn(6) == 0 {
+			cfg = append(append([]string{}, cfg...), "L") // the services are registered after the server was built
 		}
 		pres := c20Prefixes(all, r)
 		for k := 0; k < 4; k++ {
